@@ -629,20 +629,114 @@ Proof.
   repeat split; try apply W2; congruence.
 Qed.
 
-(* the clone IS the original state: the state relation of the bisimulation is equality *)
-Lemma rs_clone_identity (s : rs_state) :
-  rs_debug _ _ s = true -> rs_restrict _ _ s = None -> rs_wf s ->
-  rs_clone C M meqb ms s (rs_get_state C M s) = Ok s.
+(* well-formedness of every reachable state, with or without restrict_configurations *)
+Definition rs_wf2 (s : rs_state) : Prop :=
+  rs_rcpos _ _ s = (match rs_restrict _ _ s with Some _ => Some [] | None => None end) /\
+  (rs_allow_dup _ _ s = false -> rs_cft _ _ s = None).
+
+Definition rs_static (s s' : rs_state) : Prop :=
+  rs_debug _ _ s' = rs_debug _ _ s /\ rs_allow_dup _ _ s' = rs_allow_dup _ _ s /\
+  rs_size _ _ s' = rs_size _ _ s /\ rs_retries _ _ s' = rs_retries _ _ s.
+
+Lemma restrict_loop_pos n rc e ad : forall ds c pos' ds',
+  restrict_loop C M meqb ms n rc e ad (Some []) ds = Ok (c, pos', ds') ->
+  pos' = Some [] \/ (ad = false /\ exists c0 p, c = Some c0 /\ pos' = Some [p]).
 Proof.
-  intros Hd Hr [W1 W2]. unfold rs_clone, rs_ctor. rewrite Hd. simpl.
-  destruct s as [p2e ex cft rc pos dbg ad sz rt]. simpl in *. subst.
-  rewrite (W1 eq_refl). unfold rs_with. simpl. destruct ad; simpl; [reflexivity|].
-  rewrite (W2 eq_refl). reflexivity.
+  induction n as [|n IH]; intros ds c pos' ds' H; simpl in H.
+  - injection H as _ <- _. auto.
+  - destruct ds as [|[d|p] ds0]; try discriminate.
+    destruct (nth_error rc p) as [c0|]; [|discriminate].
+    destruct (excl_contains e c0); [eapply IH; eauto|].
+    destruct ad.
+    + injection H as _ <- _. auto.
+    + injection H as <- <- _. right. split; [reflexivity|]. exists c0, p. auto.
 Qed.
 
-Lemma rs_clone_nodebug (s : rs_state) st :
-  rs_debug _ _ s = false -> rs_clone C M meqb ms s st = Err AssertDebugLog.
-Proof. intro H. unfold rs_clone, rs_ctor. rewrite H. reflexivity. Qed.
+Lemma rs_get_config_wf2 (s s' : rs_state) ds c ds' :
+  rs_wf2 s -> rs_get_config s ds = Ok (s', c, ds') -> rs_wf2 s' /\ rs_static s s'.
+Proof.
+  intros [W1 W2] H. destruct s as [p2e ex cft rc pos dbg ad sz rt]. simpl in *. subst pos.
+  unfold Searcher.rs_get_config, rs_random_config in H. simpl in H.
+  assert (Fin : forall p2e' ex' cft' rc' pos',
+            (pos' = match rc' with Some _ => Some [] | None => None end) ->
+            (ad = false -> cft' = None) ->
+            rs_wf2 (rs_with C M {| rs_p2e := p2e; rs_excl := ex; rs_cft := cft; rs_restrict := rc;
+                                   rs_rcpos := match rc with Some _ => Some [] | None => None end;
+                                   rs_debug := dbg; rs_allow_dup := ad; rs_size := sz; rs_retries := rt |}
+                          p2e' ex' cft' rc' pos') /\
+            rs_static {| rs_p2e := p2e; rs_excl := ex; rs_cft := cft; rs_restrict := rc;
+                         rs_rcpos := match rc with Some _ => Some [] | None => None end;
+                         rs_debug := dbg; rs_allow_dup := ad; rs_size := sz; rs_retries := rt |}
+                      (rs_with C M {| rs_p2e := p2e; rs_excl := ex; rs_cft := cft; rs_restrict := rc;
+                                      rs_rcpos := match rc with Some _ => Some [] | None => None end;
+                                      rs_debug := dbg; rs_allow_dup := ad; rs_size := sz; rs_retries := rt |}
+                               p2e' ex' cft' rc' pos')).
+  { intros. unfold rs_wf2, rs_static. simpl. repeat split; auto. }
+  destruct p2e as [|c0 p2e'].
+  - destruct rc as [rc|].
+    + destruct rc as [|x rc'].
+      * injection H as <- <- <-. apply Fin; auto.
+      * destruct (restrict_loop C M meqb ms rt (x :: rc') ex ad (Some []) ds) as [[[c1 pos1] ds1]|e1] eqn:El;
+          [|discriminate].
+        apply restrict_loop_pos in El.
+        destruct c1 as [c1|].
+        -- destruct ad.
+           ++ destruct El as [->|[Hf _]]; [|discriminate]. injection H as <- <- <-. apply Fin; auto.
+           ++ destruct El as [->|(_ & c2 & p & _ & ->)]; injection H as <- <- <-; apply Fin; auto.
+        -- destruct El as [->|(_ & c2 & p & Hc & _)]; [|discriminate]. injection H as <- <- <-. apply Fin; auto.
+    + destruct (sample_random C M meqb ms rt sz ex ds) as [[c1 ds1]|e1]; [|discriminate].
+      destruct c1 as [c1|]; [destruct ad|]; injection H as <- <- <-; apply Fin; auto.
+  - destruct ad.
+    + injection H as <- <- <-. apply Fin; auto.
+    + destruct rc as [rc|]; injection H as <- <- <-; apply Fin; auto.
+Qed.
+
+Lemma rs_step_wf2 s e : rs_wf2 s -> rs_wf2 (fst (rs_step s e)) /\ rs_static s (fst (rs_step s e)).
+Proof.
+  intros W. assert (Same : rs_wf2 s /\ rs_static s s) by (split; [assumption | unfold rs_static; auto]).
+  destruct e as [ds|t c|t|t]; simpl.
+  - destruct (rs_get_config s ds) as [[[s' c] ds']|x] eqn:E; simpl; [|exact Same].
+    eapply rs_get_config_wf2; eauto.
+  - destruct W as [W1 W2]. unfold rs_register_pending.
+    destruct (rs_cft _ _ s) as [d|] eqn:Ec; [|exact Same].
+    destruct (rs_allow_dup _ _ s) eqn:Ea; [|exact Same].
+    destruct (lookupZ t d); [exact Same|].
+    unfold rs_wf2, rs_static. simpl. rewrite Ea. repeat split; auto. discriminate.
+  - destruct W as [W1 W2]. unfold rs_evaluation_failed.
+    destruct (rs_cft _ _ s) as [d|] eqn:Ec; [|exact Same].
+    destruct (rs_allow_dup _ _ s) eqn:Ea; [|exact Same].
+    destruct (lookupZ t d); [|exact Same].
+    unfold rs_wf2, rs_static. simpl. rewrite Ea. repeat split; auto.
+  - exact Same.
+Qed.
+
+Lemma rs_run_wf2 es : forall s, rs_wf2 s -> rs_wf2 (fst (rs_run s es)).
+Proof.
+  induction es as [|e r IH]; intros s W; simpl; [assumption|].
+  destruct (rs_step_wf2 s e W) as [W1 _]. destruct (rs_step s e) as [s1 o1]. simpl in *.
+  specialize (IH s1 W1). destruct (rs_run s1 r) as [s2 o2]. simpl in *. assumption.
+Qed.
+
+Lemma rs_ctor_wf2 pts dl ad rc sz rt s :
+  rs_ctor C M meqb ms pts dl ad rc sz rt = Ok s -> rs_wf2 s.
+Proof.
+  unfold rs_ctor. intro H.
+  destruct rc as [[|x rc]|]; try discriminate.
+  - destruct (filter_p2e C M meqb ms pts (x :: rc) ad) as [p rc'].
+    destruct dl as [b| |]; try discriminate; injection H as <-; unfold rs_wf2; simpl;
+      (split; [reflexivity | destruct ad; [discriminate | reflexivity]]).
+  - destruct dl as [b| |]; try discriminate; injection H as <-; unfold rs_wf2; simpl;
+      (split; [reflexivity | destruct ad; [discriminate | reflexivity]]).
+Qed.
+
+(* the clone IS the original state: the state relation of the bisimulation is equality *)
+Lemma rs_clone_identity (s : rs_state) :
+  rs_wf2 s -> rs_clone C M meqb ms s (rs_get_state C M s) = Ok s.
+Proof.
+  intros [W1 W2]. destruct s as [p2e ex cft rc pos dbg ad sz rt]. simpl in *. subst pos.
+  unfold rs_clone, rs_ctor. destruct dbg; simpl; unfold rs_with; simpl;
+    (destruct ad; simpl; [reflexivity | rewrite (W2 eq_refl); reflexivity]).
+Qed.
 
 Definition gs_static (s s' : gs_state) : Prop :=
   gs_grid _ _ s' = gs_grid _ _ s /\ gs_allow_dup _ _ s' = gs_allow_dup _ _ s /\
@@ -680,13 +774,8 @@ Proof.
 Qed.
 
 Lemma gs_clone_identity {Seed} base (shuffle : Seed -> list C -> list C) dseed dpts (s : gs_state) :
-  gs_allow_dup _ _ s = false ->
-  gs_grid _ _ s = (if gs_shuffle _ _ s then shuffle dseed base else base) ->
   gs_clone C M base shuffle dseed dpts s (gs_get_state C M s) = s.
-Proof.
-  intros Ha Hg. destruct s as [p2e grid nxt ini ad sh]. simpl in *. subst.
-  unfold gs_clone, gs_ctor, gs_with. simpl. reflexivity.
-Qed.
+Proof. destruct s; reflexivity. Qed.
 
 (* GP searcher: the clone differs from the original only in the lazily created internal
    random searcher *)
@@ -774,32 +863,21 @@ Proof.
   - apply grid_sequence_NoDup.
 Qed.
 
-Lemma rs_clone_bisimilar pts dl ad sz rt s hist cont :
-  rs_ctor C M meqb ms pts dl ad None sz rt = Ok s -> rs_debug _ _ s = true ->
+Lemma rs_clone_bisimilar pts dl ad rc sz rt s hist :
+  rs_ctor C M meqb ms pts dl ad rc sz rt = Ok s ->
   let s1 := fst (rs_run s hist) in
-  exists s1', rs_clone C M meqb ms s1 (rs_get_state C M s1) = Ok s1' /\ s1' = s1 /\
-              snd (rs_run s1' cont) = snd (rs_run s1 cont).
+  rs_clone C M meqb ms s1 (rs_get_state C M s1) = Ok s1.
 Proof.
-  intros Hc Hd s1. pose proof (rs_ctor_wf _ _ _ _ _ _ Hc) as W.
-  pose proof (rs_ctor_p2e _ _ _ _ _ _ Hc) as (_ & _ & Hr & _).
-  destruct (rs_wf_run hist s Hr W) as (W1 & R1 & D1).
-  exists s1. split; [|auto]. apply rs_clone_identity; [unfold s1; congruence | exact R1 | exact W1].
+  intros Hc s1. apply rs_clone_identity. apply rs_run_wf2. eapply rs_ctor_wf2; eauto.
 Qed.
 
-Lemma gs_clone_bisimilar {Seed} base (shuffle : Seed -> list C -> list C) dseed dpts pts seed sh hist cont :
-  (sh = false \/ shuffle seed base = shuffle dseed base) ->
-  let s1 := fst (gs_run (gs_ctor C M base shuffle pts seed sh false) hist) in
+Lemma gs_clone_bisimilar {Seed} base (shuffle : Seed -> list C -> list C) dseed dpts (s1 : gs_state) cont :
   gs_clone C M base shuffle dseed dpts s1 (gs_get_state C M s1) = s1 /\
   snd (gs_run (gs_clone C M base shuffle dseed dpts s1 (gs_get_state C M s1)) cont) = snd (gs_run s1 cont).
 Proof.
-  intros Hs s1.
-  assert (E : gs_clone C M base shuffle dseed dpts s1 (gs_get_state C M s1) = s1).
-  { destruct (gs_run_static hist (gs_ctor C M base shuffle pts seed sh false)) as (A1 & A2 & A3).
-    fold s1 in A1, A2, A3. simpl in A1, A2, A3. apply gs_clone_identity; [assumption|].
-    rewrite A1, A3. destruct sh; [|reflexivity]. destruct Hs as [Hs|Hs]; [discriminate | assumption]. }
+  assert (E : gs_clone C M base shuffle dseed dpts s1 (gs_get_state C M s1) = s1) by apply gs_clone_identity.
   split; [assumption | rewrite E; reflexivity].
 Qed.
-
 
 (* GP searcher: original and clone agree on every get_config that does not consult the
    internal random searcher (initial points, model-based decisions), and stay equal up to it *)
